@@ -12,6 +12,9 @@ import (
 	"sync"
 	"sync/atomic"
 
+	"cosmossdk.io/math"
+
+	dispatchertypes "github.com/noble-assets/orbiter/v2/types/component/dispatcher"
 	"github.com/noble-assets/orbiter/v2/types/core"
 	fwdtypes "github.com/noble-assets/orbiter/v2/types/controller/forwarding"
 	forwardertypes "github.com/noble-assets/orbiter/v2/types/component/forwarder"
@@ -237,6 +240,39 @@ func c20Dynamic(rep *Report, accepted map[int32][]string) {
 			if msgOK != qOK || msgOK != gOK {
 				rep.Violate(Violation{Kind: "entry-points-disagree", Group: proto, Sig: sig, Replay: replay,
 					What: fmt.Sprintf("%s counterparty %q: pause message accepts=%v, IsCrossChainPaused query accepts=%v, genesis validation accepts=%v", proto, s, msgOK, qOK, gOK)})
+			}
+			// genesis IMPORT (what InitChain runs; it does not call ValidateGenesis): the identifier as the source of a
+			// count entry, as the destination of an amount entry and as a paused cross-chain. An import that completes
+			// has accepted the identifier.
+			if _, canon := canonicalDomain(s); !canon {
+				one := math.NewInt(1)
+				docs := map[string]*orbtypes.GenesisState{}
+				gc := orbtypes.DefaultGenesisState()
+				gc.DispatcherGenesis.DispatchedCounts = []dispatchertypes.DispatchCountEntry{{SourceId: &core.CrossChainID{ProtocolId: pid, CounterpartyId: s}, DestinationId: &core.CrossChainID{ProtocolId: core.PROTOCOL_CCTP, CounterpartyId: "0"}, Count: 1}}
+				docs["dispatched_counts source"] = gc
+				ga := orbtypes.DefaultGenesisState()
+				ga.DispatcherGenesis.DispatchedAmounts = []dispatchertypes.DispatchedAmountEntry{{SourceId: &core.CrossChainID{ProtocolId: core.PROTOCOL_IBC, CounterpartyId: "channel-0"}, DestinationId: &core.CrossChainID{ProtocolId: pid, CounterpartyId: s}, Denom: denomUSDC,
+					AmountDispatched: dispatchertypes.AmountDispatched{Incoming: one, Outgoing: one}}}
+				docs["dispatched_amounts destination"] = ga
+				gs := orbtypes.DefaultGenesisState()
+				gs.DispatcherGenesis.DispatchedAmounts = []dispatchertypes.DispatchedAmountEntry{{SourceId: &core.CrossChainID{ProtocolId: pid, CounterpartyId: s}, DestinationId: &core.CrossChainID{ProtocolId: core.PROTOCOL_INTERNAL, CounterpartyId: "noble"}, Denom: denomUSDC,
+					AmountDispatched: dispatchertypes.AmountDispatched{Incoming: one, Outgoing: one}}}
+				docs["dispatched_amounts source"] = gs
+				docs["paused_cross_chains"] = g
+				for where, doc := range docs {
+					ib := Branch(w.Ctx)
+					w.wipeOrbiterStore(ib)
+					var ipan any
+					func() {
+						defer func() { ipan = recover() }()
+						w.App.OrbiterKeeper.InitGenesis(ib, *doc)
+					}()
+					rep.Count("genesis_imports", 1)
+					if ipan == nil {
+						rep.Violate(Violation{Kind: "non-canonical-identifier-accepted-by-genesis-import", Group: proto + " " + where, Sig: sig + " " + where, Replay: mustJSON(map[string]any{"genesis_label": where, "identifier": s}),
+							What: fmt.Sprintf("InitGenesis completes with the non-canonical %s identifier %q in %s", proto, s, where)})
+					}
+				}
 			}
 			if !msgOK {
 				continue
